@@ -84,6 +84,10 @@ def verus_cmd(debug_assertions, extra=()):
 
 def run_verus(scratch, debug_assertions, extra=()):
     cmd = verus_cmd(debug_assertions, extra)
+    if '--rlimit' in list(extra):
+        # drop the default limit (Verus rejects an option given twice)
+        i0 = cmd.index('--rlimit')
+        del cmd[i0:i0 + 2]
     t0 = time.time()
     r = sh(cmd, cwd=scratch, env=dict(os.environ, RUSTUP_TOOLCHAIN=VERUS_TOOLCHAIN))
     wall = time.time() - t0
@@ -395,6 +399,13 @@ def _run(pid, P, tier, seed, scratch, t0):
                         e2 = cur.get('expansion')
                         cur = e2.get('span') if e2 else None
         if not newly:
+            # a resource-limit hit is not a verdict: repeat that configuration once with five times the limit
+            for i_, r in enumerate(list(runs)):
+                if any(('rlimit' in d.get('message', '') or 'Resource limit' in d.get('message', '')) for d in r['diags'] if d.get('level') == 'error'):
+                    r2 = run_verus(vdir, cfgs[i_], ['--rlimit', '150'])
+                    r2['cfg'] = r['cfg']
+                    r2['retried_rlimit'] = True
+                    runs[i_] = r2
             break
         demote |= newly
     if tier == 'thorough':
